@@ -143,7 +143,7 @@ Proof.
   - exists []. reflexivity.
 Qed.
 
-(* ------------------------------------------------------------------ the finding (F31), as a theorem about the model *)
+(* ------------------------------------------------------------------ the finding (F32), as a theorem about the model *)
 (* engine_kernel_agree — "whenever a thread waits for (fd, direction), the kernel entry of fd is armed for the
    translation of that direction" — does NOT hold: EPOLLHUP, which the kernel reports regardless of the requested
    events, consumes the one-shot arming of an EVENT_ERROR waiter, is not in ERRBIT, so nobody is woken and nothing
